@@ -267,6 +267,7 @@ type epObj struct {
 	probeCalls int64 // calls of the health-check function made by this object's health-check loop
 	hcLive     bool  // last measured
 	hcMeasured bool
+	wrapped    bool // probeCalls is maintained (optional shim available)
 }
 
 // recRT wraps EndpointInfo.ProxyTransport: it records which endpoint object was handed which request, and it is
